@@ -4,7 +4,7 @@
    Hand-written from _mutations_excs / _mutations_markers / _mutations_property / _mutations_pure / _mutations_import /
    _get_insert_line / transform; tools/py2coq/tr_transformer.py pins their source text. The applying half (the mutation classes,
    their sort keys, _apply_mutations) is regenerated in Gen/Transformer.v. *)
-From Coq Require Import List Arith Bool String.
+From Coq Require Import List Arith Bool Ascii String.
 Import ListNotations.
 Require Import Transformer.
 Open Scope string_scope.
@@ -18,9 +18,11 @@ Definition brackets_optional (c : cat) : bool := match c with CSafe | CPure => t
 
 Record contract := { c_cat : cat; c_line : nat; c_last : nat;   (* first and last line of the decorator *)
                      c_excs : list string;        (* contract.exceptions, as _exc_as_str shows them *)
-                     c_markers : list string }.   (* the string-valued arguments *)
-Inductive deco := DName (ln : nat) (name : string) | DOther (ln : nat).
-Definition deco_line (d : deco) : nat := match d with DName ln _ | DOther ln => ln end.
+                     c_markers : list string;     (* the string-valued arguments *)
+                     c_inherited : bool }.        (* collected through deal.inherit: the decorator is on the method of a base class *)
+Inductive deco := DName (ln : nat) (name : string) | DOther (ln : nat)
+                | DInherit (ln : nat).            (* the attribute deal.inherit *)
+Definition deco_line (d : deco) : nat := match d with DName ln _ | DOther ln | DInherit ln => ln end.
 Record func := { f_line : nat; f_col : nat; f_decos : list deco; f_contracts : list contract;
                  f_new_excs : list string;        (* sorted(set of undeclared exceptions) *)
                  f_new_markers : list string }.   (* sorted(set of undeclared markers) *)
@@ -54,6 +56,7 @@ Fixpoint gil (fl : nat) (ds : list deco) (line : nat) : nat :=
   | d :: r => if Nat.ltb (deco_line d) fl then fl
               else match d with
                    | DOther _ => gil fl r line
+                   | DInherit ln => gil fl r (ln + 1)         (* contracts above deal.inherit would wrap the descriptor *)
                    | DName ln n => if is_static_or_class n then gil fl r line else gil fl r (ln + 1)
                    end
   end.
@@ -77,7 +80,7 @@ Definition mutations_excs (ty : types) (f : func) : list pmut :=
           else if has_contract f [CPure; CSafe] then []
           else [PInsertC il CSafe [] (f_col f)]
   | excs => if negb (t_raises ty) then []
-            else flat_map (fun c => if exc_cat c
+            else flat_map (fun c => if exc_cat c && negb (c_inherited c)      (* an inherited contract is not a decorator of this function *)
                                     then remove_contract c ++ (if cat_eqb (c_cat c) CPure then [PInsertC il CHas [] (f_col f)] else [])
                                     else []) (f_contracts f)
                  ++ [PInsertC il CRaises (declared ++ excs) (f_col f)]
@@ -97,9 +100,19 @@ Fixpoint remove_first (m : pmut) (l : list pmut) : list pmut :=
   match l with [] => [] | x :: t => if pmut_eqb x m then t else x :: remove_first m t end.
 Definition markers_step (il col : nat) (acc : list pmut) (c : contract) : list pmut :=
   if negb (has_cat c) then acc
+  else if c_inherited c then acc
   else if existsb (pmut_eqb (PRemove (c_line c))) acc
        then remove_first (PInsertC il CHas [] col) acc          (* already split by _mutations_excs: its empty has is replaced *)
        else acc ++ remove_contract c ++ (if cat_eqb (c_cat c) CPure then [PInsertC il CSafe [] col] else []).
+(* Transformer._quoted: backslashes and the quote character escaped, then quoted *)
+Fixpoint escape (q : string) (s : string) : string :=
+  match s with
+  | EmptyString => EmptyString
+  | String c r => if Ascii.eqb c "\"%char then String "\"%char (String "\"%char (escape q r))
+                  else if String.eqb (String c EmptyString) q then String "\"%char (String c (escape q r))
+                  else String c (escape q r)
+  end.
+Definition quoted (quote a : string) : string := (quote ++ escape quote a ++ quote)%string.
 Definition collect_markers (quote : string) (ty : types) (f : func) (acc : list pmut) : list pmut :=
   if negb (t_has ty || t_pure ty) then acc else
   let il := get_insert_line f in
@@ -108,7 +121,7 @@ Definition collect_markers (quote : string) (ty : types) (f : func) (acc : list 
   | [] => if has_contract f [CPure; CHas] then acc else acc ++ [PInsertC il CHas [] (f_col f)]
   | markers => if negb (t_has ty) then acc else
                fold_left (markers_step il (f_col f)) (f_contracts f) acc
-               ++ [PInsertC il CHas (map (fun a => (quote ++ a ++ quote)%string) (declared ++ markers)) (f_col f)]
+               ++ [PInsertC il CHas (map (quoted quote) (declared ++ markers)) (f_col f)]
   end.
 
 (* _mutations_property: reads self.mutations while list.extend consumes the generator *)
@@ -119,7 +132,7 @@ Fixpoint mutations_property (acc : list pmut) (ds : list deco) : list pmut :=
   | DName ln n :: r => if is_property n && existsb (fun m => Nat.eqb (pline m) (ln + 1)) acc
                        then mutations_property (acc ++ [PAppend ln "  # type: ignore[misc]"]) r
                        else mutations_property acc r
-  | DOther _ :: r => mutations_property acc r
+  | DOther _ :: r | DInherit _ :: r => mutations_property acc r
   end.
 Definition collect (quote : string) (ty : types) (acc : list pmut) (f : func) : list pmut :=
   collect_markers quote ty f (acc ++ mutations_excs ty f).
@@ -149,11 +162,15 @@ Definition mutations_pure (ty : types) (ms : list pmut) : option (list pmut) :=
 Definition imports_deal (body : list stmt) : bool :=
   existsb (fun s => match s with SImport _ names => existsb (String.eqb "deal") names | _ => false end) body.
 Definition import_start (h : head) : nat := match doc_end h with Some e => e + 1 | None => if shebang h then 2 else 1 end.
-Definition import_line (h : head) (body : list stmt) : nat :=
-  fold_left (fun line s => match s with
-                           | SImport ln _ => ln + 1
-                           | SImportFrom ln m => if String.eqb m "__future__" then ln + 1 else line
-                           | SOther => line end) body (import_start h).
+(* the imports at the top of the file: the walk stops at the first statement that is no import *)
+Definition import_step (st : nat * bool) (s : stmt) : nat * bool :=
+  if snd st then st else
+  match s with
+  | SImport ln _ => (ln + 1, false)                 (* ln: the last line of the statement *)
+  | SImportFrom ln m => (if String.eqb m "__future__" then ln + 1 else fst st, false)
+  | SOther => (fst st, true)
+  end.
+Definition import_line (h : head) (body : list stmt) : nat := fst (fold_left import_step body (import_start h, false)).
 Definition mutations_import (ty : types) (h : head) (body : list stmt) (ms : list pmut) : list pmut :=
   if negb (t_import ty) then [] else
   match ms with [] => [] | _ => if imports_deal body then [] else [PInsertText (import_line h body) "import deal"] end.
